@@ -78,6 +78,7 @@ int main(int argc, char **argv) {
     static const uint8_t T16[] = {0x00, 0x01, 0x1F, 0x20, 0x21, 0x30, 0x41, 0x5A, 0x61, 0x7A, 0x7F, 0x80, 0x81, 0xC3, 0xFE, 0xFF};
     for (int a = 0; a < 16; ++a) for (int b = 0; b < 16; ++b) for (int c = 0; c < 16; ++c) for (int d = 0; d < 16; ++d)
         try_tag((uint32_t(T16[a]) << 24) | (T16[b] << 16) | (T16[c] << 8) | T16[d]);
+    const unsigned long enum_nontrivial = g_nontrivial;      // everything up to here is enumerated once: distinct by construction
     // ... plus seeded pseudo-random tags and strings of length 3..8 over all byte values
     unsigned long long x = seed * 0x9E3779B97F4A7C15ull + 0x1234567ull;
     auto rnd = [&]() { x ^= x << 13; x ^= x >> 7; x ^= x << 17; return x; };
@@ -87,6 +88,6 @@ int main(int argc, char **argv) {
         for (size_t k = 0; k < len; ++k) { uint8_t v = uint8_t(rnd() >> 24); s[k] = v ? v : 0x80; }
         try_str(s, len);
     }
-    printf("{\"evaluations\":%lu,\"nontrivial\":%lu,\"exhaustive_cases\":%lu,\"fails\":%s}\n", g_evals, g_nontrivial, exhaustive_cases, fails.json().c_str());
+    printf("{\"evaluations\":%lu,\"nontrivial\":%lu,\"enum_nontrivial\":%lu,\"exhaustive_cases\":%lu,\"fails\":%s}\n", g_evals, g_nontrivial, enum_nontrivial, exhaustive_cases, fails.json().c_str());
     return 0;
 }
